@@ -55,6 +55,16 @@ PINNED = {
             ("crates/jet1090/src/tui.rs", None)],
     "C18": [(D + "time.rs", None), ("crates/rs1090/src/source/sero.rs", r"pub async fn receiver")],
 }
+# `fn` items whose tie to the hand model is re-established on every run by TRANSLATION + PROOF instead of a digest:
+# gen/extractors/bdsfns.py translates them into Gen/BdsFns.lean, Proofs/Decode/GenBds.lean proves the translation equal
+# to the model's conversion function on every value of the bits read, and Props/Cxx.lean of every property listed in
+# TRANSLATED_FOR states that as `bds50_readers_as_modelled` / `bds60_readers_as_modelled`.  A rewrite that keeps the
+# values no longer alarms; a behavioural edit fails the named theorem.  (`fn read_tas` stays pinned: its obligation is `_partial`.)
+TRANSLATED = {D + "bds/bds50.rs": ["fn read_roll", "fn read_track", "fn read_groundspeed", "fn read_rate"],
+              D + "bds/bds60.rs": ["fn read_heading", "fn read_ias", "fn read_mach", "fn read_vertical"],
+              D + "bds/bds40.rs": ["fn read_selected", "fn read_qnh"],
+              D + "bds/bds44.rs": ["fn read_pressure", "fn read_humidity"]}
+TRANSLATED_FOR = {"C01", "C03", "C07", "C08"}
 import re
 try:
     pins = json.load(open(os.path.join(R, "gen", "pins.json"))) if only else {}
@@ -79,6 +89,14 @@ for prop, files in PINNED.items():
                 sys.exit(f"{prop}: slice markers not found in {f}: {[k for k, v in sel.items() if v is None]}")
         else:
             sel = {k: v for k, v in its.items() if pat is None or re.search(pat, k)}
+            if prop in TRANSLATED_FOR and f in TRANSLATED:
+                gone = [k for k in TRANSLATED[f] if k not in its]
+                if gone:
+                    sys.exit(f"{prop}: translated items {gone} not found in {f}")
+                if f"Rs1090.Props.{prop}.{'bds' + f[-5:-3] + '_readers_as_modelled'}" not in \
+                        open(os.path.join(R, f"lean/Rs1090/Props/{prop}.lean")).read().replace("theorem ", f"Rs1090.Props.{prop}."):
+                    sys.exit(f"{prop}: Props/{prop}.lean has no theorem bds{f[-5:-3]}_readers_as_modelled; keep the digest pins of {f}")
+                sel = {k: v for k, v in sel.items() if k not in TRANSLATED[f]}
         pins[prop].setdefault(f, {}).update(sel)
         if not sel:
             sys.exit(f"{prop}: nothing selected in {f}")
